@@ -169,6 +169,15 @@ Theorem zonemd_input_eq_rfc : forall (tbl : list entry) (origin : name) (relativ
 Proof. exact compute_digest_eq_rfc. Qed.
 Print Assumptions zonemd_input_eq_rfc.
 
+(* RFC 4034 3.1.3: a wildcard owner whose RRSIG labels field is not (label count - 1) is refused *)
+Theorem rrsig_wild_labels_mismatch_rejected : forall tbl r rrname rdclass rdtype rdatas origin signer owner,
+  rfc_expand (r_signer r) origin = Ok signer -> Valid signer ->
+  rfc_expand rrname origin = Ok owner -> Valid owner ->
+  is_wild owner = true -> r_labels r <> rfc_label_count owner - 1 ->
+  make_rrsig_data tbl r rrname rdclass rdtype rdatas origin = Lib eValidationFailure.
+Proof. exact make_rrsig_data_rejects_wild_mismatch. Qed.
+Print Assumptions rrsig_wild_labels_mismatch_rejected.
+
 (* ---------- non-vacuity ---------- *)
 Example keytag_hyps_satisfiable :
   key_id 257 3 8 [1; 2; 3; 4; 5] = Ok (rfc_keytag (u16 257 ++ [3; 8] ++ [1; 2; 3; 4; 5]))
